@@ -1,3 +1,5 @@
-/- C18: per-message statements and the received side (Props/C18.lean) and the sent side over every history (Props/C18b.lean). -/
+/- C18: per-message statements and the received side (Props/C18.lean), the sent side over every history of events
+   (Props/C18b.lean) and over histories that also contain REST requests (Props/C18c.lean). -/
 import Yabgp.Props.C18
 import Yabgp.Props.C18b
+import Yabgp.Props.C18c
